@@ -4,5 +4,7 @@ CONSTANTS
   Versions = {"A", "B"}
   MaxWrites = 3
   Probes = 2
-INVARIANTS TypeOK ReaderSingleVersion ReadsInstalled
+  Builders = {10, 11}
+  MaxBuilds = 3
+INVARIANTS TypeOK ReaderSingleVersion ReadsInstalled BuildIsolated
 CHECK_DEADLOCK FALSE
